@@ -18,7 +18,7 @@ CLAIMED = {
          'trace validation of TLC-generated histories against AllowSet / RootAllowOK'),
  'C05': ('the specification is total (no crash action): every recorded call must carry panic=none (serve, Routes, URL, CheckSyntax) or an error value (Handle); arbitrary-byte paths/methods from the Go driver and all histories of pools X and B; Handle verdict compared with CheckSyntax on fresh routers.', '5 C05',
          'trace validation: totality of the specification vs recorded faults, randomized byte inputs'),
- 'C06': ('Lock.tla models one WithLock(true) router with one action per critical section / tree access (begin and end steps, so overlaps are states); TLC checks RaceFree, LockOK and NoTornReply for ALL interleavings of 2 writers x 2-3 readers x 2 operations under the intended discipline and NoDeadlock, must find the race under the as-built (pinned) discipline and the deadlock under the recursive-read discipline (Go RWMutex: a waiting writer blocks new readers); an inductive invariant (spec/apalache/LockInd.tla) discharged by Apalache extends RaceFree/LockOK/NoTornReply to any number of operations. The code is bound by real schedules: TLC-generated concurrent programs (writers Handle/Remove/Clean that split and re-merge nodes of untouched routes, readers ServeHTTP/Routes/URL) run with real goroutines on a -race build; call/ret histories are validated for linearizability against RouterOps by Trace_Lin.tla; race reports, fatal errors, panics and hangs are faults. Binding 2: verif access hooks report site / read-write / lock mode actually held in single-goroutine replays, validated by Trace_LockDisc.tla (mutating calls entirely under W, observers under R).', '5 C06 / 11.5',
+ 'C06': ('Lock.tla models one WithLock(true) router with one action per critical section / tree access (begin and end steps, so overlaps are states); TLC checks RaceFree, LockOK and NoTornReply for ALL interleavings of 2 writers x 2-3 readers x 2 operations under the intended discipline and NoDeadlock, must find the race under the as-built (pinned) discipline and the deadlock under the recursive-read discipline (Go RWMutex: a waiting writer blocks new readers); under weak fairness of every goroutine TLC also checks the temporal properties Termination and WriterProgress (and must see Termination fail under recursive-read); an inductive invariant (spec/apalache/LockInd.tla) discharged by Apalache extends RaceFree/LockOK/NoTornReply to any number of operations. The code is bound by real schedules: TLC-generated concurrent programs (writers Handle/Remove/Clean that split and re-merge nodes of untouched routes, readers ServeHTTP/Routes/URL) run with real goroutines on a -race build; call/ret histories are validated for linearizability against RouterOps by Trace_Lin.tla; race reports, fatal errors, panics and hangs are faults. Binding 2: verif access hooks report site / read-write / lock mode actually held in single-goroutine replays, validated by Trace_LockDisc.tla (mutating calls entirely under W, observers under R).', '5 C06 / 11.5',
          'TLC model checking of Lock.tla (all interleavings) + linearizability trace validation (Trace_Lin.tla) of -race goroutine runs'),
  'C07': ('Globals.tla models the package-level memo and the context pool shared by distinct instances (RaceFree, PoolOK for all interleavings of 3 goroutines; as-built deviation must fail; inductive invariant spec/apalache/GlobalsInd.tla discharged by Apalache for any number of operations). Bound to the code by -race runs of one goroutine per independent instance (routers built inside the goroutine, a Hosts matcher), of 4 readers on a quiescent router with and without WithLock (context enter/exit events: no context handed to two in-flight requests), by EVERY short sequence of multi-method registrations / partial removals run in a process of its own (nothing in the process has built a method set before), and by sequential multi-instance orders in a fresh process where every observation of an instance (incl. OPTIONS * on a router created after unrelated activity) is validated against that instance\'s own specification state.', '5 C07',
          'TLC model checking of Globals.tla + per-instance trace validation (Trace_Lin.tla) of -race multi-instance runs'),
